@@ -20,6 +20,9 @@ pub struct Pair<E: Ep> {
     /// side (send error); `errors[side]` counts the errors the library reported back
     pub fail_next: [u8; 2],
     pub errors: [u32; 2],
+    /// values the random source of each side hands out first (an "unlucky" source that draws
+    /// reserved values a few times before it behaves)
+    pub unlucky: [Vec<[u8; 4]>; 2],
     /// random draws made so far, per side
     pub draws: [u8; 2],
 }
@@ -37,6 +40,7 @@ impl<E: Ep> Pair<E> {
             emitted: [Vec::new(), Vec::new()],
             fail_next: [0, 0],
             errors: [0, 0],
+            unlucky: [Vec::new(), Vec::new()],
             draws: [0, 0],
         }
     }
@@ -49,6 +53,7 @@ impl<E: Ep> Pair<E> {
             emitted: [Vec::new(), Vec::new()],
             fail_next: [0, 0],
             errors: [0, 0],
+            unlucky: [Vec::new(), Vec::new()],
             draws: self.draws,
         }
     }
@@ -56,7 +61,17 @@ impl<E: Ep> Pair<E> {
     pub fn with<R>(&mut self, side: usize, f: impl FnOnce(&mut E, &mut Cb) -> R) -> R {
         let mut cb = Cb::with_draws(self.now, RANDOM[side], self.draws[side]);
         cb.fail_sends = std::mem::take(&mut self.fail_next[side]);
+        let pending_unlucky = self.unlucky[side].len();
+        if pending_unlucky > 0 {
+            let mut r = self.unlucky[side].clone();
+            r.extend(cb.random.iter().cloned());
+            cb.random = r;
+        }
         let r = f(&mut self.ep[side], &mut cb);
+        if pending_unlucky > 0 {
+            let used = cb.random_calls.min(pending_unlucky);
+            self.unlucky[side].drain(..used);
+        }
         self.draws[side] = self.draws[side].wrapping_add(cb.random_calls as u8);
         self.errors[side] += cb.errors;
         for (d, _) in &cb.all {
